@@ -96,8 +96,10 @@ func (c *controller) waitEvents(n int, done <-chan struct{}) (finished bool, err
 			c.parked = append(c.parked, p)
 		case <-done:
 			return true, nil
-		case <-time.After(20 * time.Second):
-			return false, fmt.Errorf("no progress for 20 s under the owned schedule after %d steps (deadlock in extract, or the scheduler's model of the pool is out of sync)", c.steps)
+		// (20 s were not enough on a machine running three other campaigns: thorough tier, seed 8, reported a case that
+		// replays fine - the limit is there to end a run that is stuck, and has to be far beyond any slowness)
+		case <-time.After(600 * time.Second):
+			return false, fmt.Errorf("no progress for 600 s under the owned schedule after %d steps (deadlock in extract, or the scheduler's model of the pool is out of sync)", c.steps)
 		}
 	}
 	return false, nil
